@@ -90,7 +90,7 @@ class Ctx:
         cov = dict(evaluations=self.evaluations, distinct_nontrivial=len(self.nontrivial), rule=rule,
                    samples=self.samples or ["(no case was generated)"], traces_validated_against_impl=self.traces,
                    obligations=proof["obligations"], discharged=proof["discharged"], checker_cmd=proof["checker_cmd"],
-                   trusted_base=proof["trusted_base"], theorems=proof["theorems"], proof_status=proof["status"],
+                   trusted_base=proof["trusted_base"], theorems=proof["theorems"], props_files=proof.get("props_files", []), proof_status=proof["status"],
                    axioms=proof["axioms"], input_distribution=self.dist, known_findings_printed=self.known_printed,
                    implementation_tree=self.impl["hash"] if self.impl else None)
         if not proof["obligations"]:
@@ -124,24 +124,37 @@ def proof_evidence(pid, coq_ok, coq_log):
     inside this development (coqdep cone); discharged = the same number when the build succeeded and the gate found no
     Admitted/admit/Axiom/Parameter/Conjecture and no disabled check."""
     coq = os.path.join(VERIF, "coq")
-    props = os.path.join(coq, "theories", "Props", pid + ".v")
+    import glob
+    props_files = sorted(f for f in glob.glob(os.path.join(coq, "theories", "Props", pid + "*.v")) if re.fullmatch(re.escape(pid) + r"(_\w+)?\.v", os.path.basename(f)))
+    ignored = [os.path.relpath(f, VERIF) for f in props_files if f not in set(build.coq_sources())]
+    props_files = [f for f in props_files if f in set(build.coq_sources())]      # only what the registered build compiles
+    props = props_files[0] if props_files else os.path.join(coq, "theories", "Props", pid + ".v")
     res = dict(obligations=0, discharged=0, checker_cmd="cd /verif/coq && coq_makefile -f _CoqProject -o Makefile && make -j16 (coqc 8.16.1); thorough adds coqchk -silent -o",
                trusted_base=TRUSTED_BASE, theorems=[], status="", axioms=[])
     if not os.path.exists(props):
         res["status"] = "no Props/%s.v in the development yet: the property is decided by the correspondence with the model only" % pid
         return res
-    cone = dep_cone(props)
+    cone = sorted(set(f for pf in props_files for f in dep_cone(pf)))
+    listed = set(build.coq_sources())
+    unlisted = [os.path.relpath(f, VERIF) for f in cone if f not in listed]
     stmt = re.compile(r"^\s*(?:Local\s+|Global\s+|#\[[^\]]*\]\s*)*(Theorem|Lemma|Corollary|Example|Fact|Remark|Proposition)\s+([A-Za-z0-9_']+)", re.M)
     n = 0
     for f in cone:
         n += len(stmt.findall(open(f).read()))
     res["obligations"] = n
-    res["theorems"] = [m[1] for m in stmt.findall(open(props).read()) if m[0] == "Theorem"]
-    gate = gate_scan(cone)
+    res["theorems"] = [m[1] for pf in props_files for m in stmt.findall(open(pf).read()) if m[0] == "Theorem"]
+    res["props_files"] = [os.path.relpath(f, VERIF) for f in props_files] + ["(not in _CoqProject, ignored: %s)" % f for f in ignored]
+    gate = gate_scan(cone) + ["%s is not listed in _CoqProject (not compiled by the build)" % u for u in unlisted]
     res["axioms"] = assumptions_of(pid)
+    m = re.match(r"(\d+) theorem", res["axioms"][0]) if res["axioms"] else None
+    nclosed = int(m.group(1)) if m else 0
+    if coq_ok and nclosed < len(res["theorems"]):
+        gate = gate + ["only %d of %d property theorems reported 'Closed under the global context'" % (nclosed, len(res["theorems"]))]
+    if any(a.startswith("axioms:") for a in res["axioms"]):
+        gate = gate + ["a property theorem depends on " + [a for a in res["axioms"] if a.startswith("axioms:")][0]]
     if coq_ok and not gate:
         res["discharged"] = n
-        res["status"] = "all %d statements in the dependency cone of Props/%s.v (%d files) compiled by coqc; gate clean" % (n, pid, len(cone))
+        res["status"] = "all %d statements in the dependency cone of %s (%d files) compiled by coqc; gate clean; every property theorem Closed under the global context" % (n, ", ".join(os.path.basename(f) for f in props_files), len(cone))
     else:
         res["status"] = "NOT discharged: " + ("; ".join(gate) if gate else "coq build failed: " + coq_log[-1500:])
     return res
@@ -185,9 +198,10 @@ def gate_scan(files):
 
 def assumptions_of(pid):
     """what Print Assumptions printed under the theorems of Props/<pid>.v during the last build"""
-    log = os.path.join(VERIF, "coq", "assumptions", pid + ".log")
-    if not os.path.exists(log): return ["(no Print Assumptions output recorded)"]
-    txt = open(log).read()
+    import glob
+    logs = [f for f in glob.glob(os.path.join(VERIF, "coq", "assumptions", pid + "*.log")) if re.fullmatch(re.escape(pid) + r"(_\w+)?\.log", os.path.basename(f))]
+    if not logs: return ["(no Print Assumptions output recorded)"]
+    txt = "\n".join(open(l).read() for l in logs)
     closed = txt.count("Closed under the global context")
     ax = sorted(set(re.findall(r"^([A-Za-z_][A-Za-z0-9_.']*)\s*:", txt, re.M)))
     out = ["%d theorem(s): Closed under the global context" % closed] if closed else []
